@@ -33,7 +33,12 @@ func WithValue(parent Context, key, val any) Context {
 
 func WithoutCancel(parent Context) Context { return context.WithoutCancel(parent) }
 
-func Cause(c Context) error { return c.Err() }
+func Cause(c Context) error {
+	if v, ok := c.(*vrt.Ctx); ok {
+		return v.Cause()
+	}
+	return context.Cause(c)
+}
 
 func derive(parent Context) *vrt.Ctx {
 	if !vrt.InExecution() {
@@ -49,7 +54,7 @@ func WithCancel(parent Context) (Context, CancelFunc) {
 
 func WithCancelCause(parent Context) (Context, CancelCauseFunc) {
 	c := derive(parent)
-	return c, func(error) { c.CancelNow() }
+	return c, func(cause error) { c.CancelCause(cause) }
 }
 
 func WithDeadline(parent Context, d time.Time) (Context, CancelFunc) {
